@@ -274,9 +274,7 @@ class StreamGen:
                 m = f.copy()
                 m.update(ind=n, text="- " + f.text, role="entry", compact=True)
                 if f.key is not None:
-                    m["keypos"] = 2
-                if f.base is not None or f.val == "flowopen":
-                    pass
+                    m["keypos"] = f.keypos + 2
                 out.append(m)
                 out += sub[1:]
             else:
@@ -712,7 +710,7 @@ def op12_undeclared_handle(lines, docs, rng):
         m[i]["text"] = t[:a] + tag + " " + t[a:]
         return strip(render(m))
     i, a = rng.choice(regs)
-    out.append(("never-declared", ins(i, a, rng.choice(["!u!x", "!u!", "!abc!def", "!u!x%41"]))))
+    out.append(("never-declared", ins(i, a, rng.choice(["!u!x", "!u!y-1", "!abc!def", "!u!x%41"]))))
     c = [(i, a) for (i, a) in regs if "!e!" not in docs[lines[i].doc]["handles"]
          and any("!e!" in docs[k]["handles"] for k in range(lines[i].doc))]
     if c:
